@@ -35,6 +35,7 @@ Line protocol of `model_c16` (one op per line, one answer line):
   CODEGEN <color> <sources> <back> <output-file|none> <wr 0/1>
   TOKLOC <ln> <off> <len>                        → loc
   MERGE <loc>/<loc>…                             → loc <loc> | none | assert
+  SPAN <sl> <sc> <el> <ec>                       → loc <loc> | assert      (`SourceLocation((sl, sc), (el, ec))`)
 -/
 
 def parseText (s : String) : Option Text :=
@@ -147,6 +148,7 @@ def parseProbe (s : String) : Option (Text × Probe) :=
       if k == "t" then pure (d, .text t)
       else if k == "o" then pure (d, .osError t)
       else if k == "u" then pure (d, .unicodeError t)
+      else if k == "v" then pure (d, .valueError t)
       else if k == "x" then pure (d, .otherError (String.ofList t))
       else none
     | _ => none
@@ -282,6 +284,13 @@ def handle (line : String) : String :=
     | some col, some srcs, some bk, some ofile, some fs =>
       showRun (codegenMain () srcs (fun _ => bk) col ofile fs)
     | _, _, _, _, _ => "bad-op"
+  | ["SPAN", a, b, c, d] =>
+    match a.toNat?, b.toNat?, c.toNat?, d.toNat? with
+    | some a, some b, some c, some d =>
+      match mkLoc (a, b) (c, d) with
+      | .ok l => "loc " ++ showLoc l
+      | .error _ => "assert"
+    | _, _, _, _ => "bad-op"
   | ["MERGE", ls] =>
     match (ls.splitOn "/").mapM (fun x => parseLocFields (x.splitOn ",")) with
     | some ls =>
